@@ -189,7 +189,11 @@ def run_check(cid: str, tier: str, seed: int) -> int:
     # a crashed shard (harness died without writing a result) is a harness fault, reported loudly and inconclusive
     floors = mod.floors(tier) if hasattr(mod, "floors") else {}
     unmet = {}
+    # the modules declare floors at roughly a third of what a quick run produces; they are applied with a further
+    # safety factor so that seed-to-seed variation cannot turn an unchanged tree into INCONCLUSIVE (DESIGN 1.5)
+    scale = {"quick": 0.25, "thorough": 1.5}[tier]
     for name, need in floors.items():
+        need = int(need * scale)
         if name == "distinct_nontrivial":
             have = len(m["hashes"])
         elif name == "evaluations":
